@@ -641,18 +641,19 @@ func (s *state) evalDataRef(node *ast.DataRefNode) data.Value {
 	for i, accessNode := range node.Access {
 		// resolve the index or key to look up.
 		var (
-			index int = -1
-			key   string
+			index    int
+			key      string
+			hasIndex bool // else key holds the key: "" and -1 are a key / an index like any other.
 		)
 		switch node := accessNode.(type) {
 		case *ast.DataRefIndexNode:
-			index = node.Index
+			index, hasIndex = node.Index, true
 		case *ast.DataRefKeyNode:
 			key = node.Key
 		case *ast.DataRefExprNode:
 			switch keyRef := s.eval(node.Arg).(type) {
 			case data.Int:
-				index = int(keyRef)
+				index, hasIndex = int(keyRef), true
 			default:
 				key = keyRef.String()
 			}
@@ -669,13 +670,13 @@ func (s *state) evalDataRef(node *ast.DataRefNode) data.Value {
 			s.errorf("%q is null or undefined",
 				(&ast.DataRefNode{node.Pos, node.Key, node.Access[:i]}).String())
 		case data.List:
-			if index == -1 {
+			if !hasIndex {
 				s.errorf("%q is a list, but was accessed with a non-integer index",
 					(&ast.DataRefNode{node.Pos, node.Key, node.Access[:i]}).String())
 			}
 			ref = obj.Index(index)
 		case data.Map:
-			if key == "" {
+			if hasIndex {
 				s.errorf("%q is a map, and requires a string key to access",
 					(&ast.DataRefNode{node.Pos, node.Key, node.Access[:i]}).String())
 			}
